@@ -282,6 +282,11 @@ func (sq *SyncQueue) processNextWorkItem() bool {
 
 func (sq *SyncQueue) ResourceEventHandler(scheme *runtime.Scheme) cache.ResourceEventHandler {
 	enqueue := func(action string, obj interface{}) {
+		if tombstone, ok := obj.(cache.DeletedFinalStateUnknown); ok {
+			// a deletion observed by a relist: the tombstone itself is not a
+			// runtime.Object, the last known state of the object is inside
+			obj = tombstone.Obj
+		}
 		runtimeObj, ok := obj.(runtime.Object)
 		if !ok {
 			return
